@@ -54,7 +54,8 @@ class C16Saturate(Scenario):
         if r < 70:
             return {"op": "remove", "k": k, "n": self.gen_amount(rng)}
         if r < 88:
-            return {"op": "merge", "adds": [[rng.below(3), self.gen_amount(rng)] for _ in range(rng.between(1, 3))]}
+            return {"op": "merge", "adds": [[rng.below(3), self.gen_amount(rng) * (-1 if rng.chance(1, 4) else 1)]
+                                            for _ in range(rng.between(1, 3))]}
         return {"op": "restart"}
 
     # ------------------------------------------------------------------ world
@@ -225,6 +226,7 @@ class C16Saturate(Scenario):
                 second = CountingBloomFilter(self.cfg["est"], self.cfg["rate"], hash_function=self.env.hf)
                 cells2 = [0] * self.m
                 for k, n in step["adds"]:
+                    n = abs(n)
                     for p in self.visits(k):
                         cells2[p] = clamp(cells2[p] + n, 0, U32)
                     try:
@@ -255,7 +257,10 @@ class C16Saturate(Scenario):
                     for p in self.visits(k):
                         cells2[p] = clamp(cells2[p] + n, I32MIN, I32MAX)
                     tot2 = clamp(tot2 + n, I64MIN, I64MAX)
-                    second.add(self.key(k), n)
+                    if n >= 0:
+                        second.add(self.key(k), n)
+                    else:
+                        second.remove(self.key(k), -n)  # a negative amount in the recipe is a removal
                 self.call(lambda: o.join(second), "join", sig)
                 got, total = self.read_cells()
                 for i in range(len(got)):
